@@ -51,6 +51,12 @@ func (c *Cluster) topicMeta(t *Topic) map[string]any {
 	if parts == nil {
 		parts = []any{}
 	}
+	if c.ReversePartitionOrder {
+		// brokers do not promise to list the partitions of a topic by increasing id
+		for i, j := 0, len(parts)-1; i < j; i, j = i+1, j-1 {
+			parts[i], parts[j] = parts[j], parts[i]
+		}
+	}
 	return map[string]any{"ErrorCode": int64(0), "Name": t.Name, "IsInternal": t.Internal, "Partitions": parts}
 }
 
